@@ -259,7 +259,7 @@ pub fn step(s: &mut St, ev: Ev) -> Result<u8, (String, String)> {
 
 pub fn run(ctx: &Ctx) -> Outcome {
     let alpha = alphabet();
-    let depth = ctx.tier.pick(6usize, 8usize);
+    let depth = ctx.tier.pick(7usize, 8usize);
     let t0 = Instant::now();
     let mut out = Outcome::default();
     let mut part = Part::mc("cubic-event-sequences");
